@@ -1,58 +1,132 @@
 import Log4rsModel.Routing.Filters
 /- helper lemmas for C03 -/
+set_option linter.unusedSimpArgs false
 namespace Log4rs.Routing
 
-theorem runChain_eq_spec (lvl : Nat) (chain : List Filter) :
-    runChain lvl chain = (specConsulted lvl chain, specDelivered lvl chain) := by
-  induction chain with
-  | nil => simp [runChain, specConsulted, specDelivered, firstDecisive]
-  | cons f rest ih =>
-    simp only [runChain, ih]
-    cases h : f.respond lvl <;>
-      simp [specConsulted, specDelivered, firstDecisive, List.findIdx?_cons, h]
+variable {ρ : Type}
+
+/-! ### the chain interpreter -/
+
+theorem runChainL_eq_spec (r : ρ) (ch : List (LFilter ρ)) :
+    runChainL r ch =
+      ((ch.take (specConsulted r (fns ch))).map (·.1), specDelivered r (fns ch)) := by
+  induction ch with
+  | nil => simp [runChainL, specConsulted, specDelivered, firstDecisive, fns]
+  | cons lf rest ih =>
+    obtain ⟨l, f⟩ := lf
+    simp only [runChainL, ih]
+    cases h : f r <;>
+      simp [specConsulted, specDelivered, firstDecisive, fns, List.findIdx?_cons, h]
     · generalize List.findIdx? _ rest = o
       cases o <;> simp
 
-theorem appendOne_eq (i : Nat) (a : AppenderM) (lvl : Nat) :
-    appendOne i a lvl = (specAppenderEvents i a lvl, specDelivered lvl a.chain && a.fails) := by
-  simp [appendOne, runChain_eq_spec, specAppenderEvents]
+theorem specConsulted_le (r : ρ) (fs : List (ρ → Response)) : specConsulted r fs ≤ fs.length := by
+  unfold specConsulted
+  split
+  · rename_i i hi
+    have := List.findIdx?_eq_some_iff_getElem.mp hi
+    obtain ⟨h, _⟩ := this
+    simp at h
+    omega
+  · exact Nat.le_refl _
 
-/-- the per-attachment events of the specification -/
-def specAttachEvents (table : List AppenderM) (lvl : Nat) (i : Nat) : List Event :=
-  match table[i]? with
-  | some a => specAppenderEvents i a lvl
-  | none => []
+theorem fns_declare (fs : List (ρ → Response)) : fns (declare fs) = fs := by
+  simp [fns, declare, List.map_map, Function.comp_def]
 
-theorem attachLoop_eq (table : List AppenderM) (lvl : Nat) (attached : List Nat)
-    (h : ∀ j ∈ attached, j < table.length) :
-    attachLoop table lvl attached =
-      .ok (attached.flatMap (specAttachEvents table lvl), attached.filter (specErrs table lvl)) := by
-  induction attached with
-  | nil => simp [attachLoop]
+theorem labels_declare (fs : List (ρ → Response)) : (declare fs).map (·.1) = List.range fs.length := by
+  simp [declare, List.map_map, Function.comp_def, List.range_eq_range']
+
+theorem labels_declare_take (fs : List (ρ → Response)) (k : Nat) (hk : k ≤ fs.length) :
+    ((declare fs).take k).map (·.1) = List.range k := by
+  rw [List.map_take, labels_declare, List.take_range]
+  simp [Nat.min_eq_left hk]
+
+/-! ### the fan-out loop -/
+
+theorem appendOneG_eq (i : Nat) (a : AppenderG ρ) (r : ρ) (k : Nat) :
+    appendOneG i a r k =
+      (specAppenderEvents i a r, if specDelivered r (fns a.chain) then a.result k else .ok) := by
+  simp [appendOneG, runChainL_eq_spec, specAppenderEvents, List.map_map, Function.comp_def]
+
+/-- the attachments that return an error, by recursion: `pre` = the attachments already handled -/
+def errLoop (table : List (AppenderG ρ)) (r : ρ) : List Nat → List Nat → List Nat
+  | _, [] => []
+  | pre, i :: rest =>
+    (if errAt table r i (pre.count i) then [i] else []) ++ errLoop table r (pre ++ [i]) rest
+
+theorem errLoop_zipIdx (table : List (AppenderG ρ)) (r : ρ) (pre rest : List Nat) :
+    (((rest.zipIdx pre.length).filter (specErrs table r (pre ++ rest))).map (·.1)) =
+      errLoop table r pre rest := by
+  induction rest generalizing pre with
+  | nil => simp [errLoop]
+  | cons i rest ih =>
+    have h := ih (pre ++ [i])
+    simp only [List.length_append, List.length_cons, List.length_nil, List.append_assoc,
+      List.cons_append, List.nil_append, Nat.zero_add] at h
+    simp only [List.zipIdx_cons, List.filter_cons, errLoop, ← h]
+    have : specErrs table r (pre ++ i :: rest) (i, pre.length) = errAt table r i (pre.count i) := by
+      simp [specErrs]
+    rw [this]
+    split <;> simp
+
+theorem specErrList_eq_errLoop (table : List (AppenderG ρ)) (r : ρ) (attached : List Nat) :
+    specErrList table r attached = errLoop table r [] attached := by
+  have := errLoop_zipIdx table r [] attached
+  simpa [specErrList] using this
+
+/-- no `append` of the table ever panics -/
+def NoPanic (table : List (AppenderG ρ)) : Prop :=
+  ∀ (j : Nat) (a : AppenderG ρ), table[j]? = some a → ∀ k, a.result k ≠ CallResult.panic
+
+theorem attachLoopG_eq (table : List (AppenderG ρ)) (r : ρ) (hnp : NoPanic table)
+    (rest pre reached : List Nat) (hrange : ∀ j ∈ rest, j < table.length)
+    (hreach : ∀ j a, table[j]? = some a → specDelivered r (fns a.chain) = true →
+      reached.count j = pre.count j) :
+    attachLoopG table r rest reached =
+      .done (rest.flatMap (specAttachEvents table r)) (errLoop table r pre rest) := by
+  induction rest generalizing pre reached with
+  | nil => simp [attachLoopG, errLoop]
   | cons idx rest ih =>
-    have hidx : idx < table.length := h idx (by simp)
-    have hrest : ∀ j ∈ rest, j < table.length := fun j hj => h j (by simp [hj])
+    have hidx : idx < table.length := hrange idx (by simp)
     have hget : table[idx]? = some table[idx] := List.getElem?_eq_getElem hidx
-    simp only [attachLoop, hget, ih hrest, appendOne_eq, List.flatMap_cons, List.filter_cons,
-      specAttachEvents, specErrs]
-    split <;> simp_all
+    generalize table[idx] = a at hget
+    have hnp' := hnp idx a hget
+    simp only [attachLoopG, hget, appendOneG_eq, List.flatMap_cons, errLoop, specAttachEvents, errAt,
+      runChainL_eq_spec]
+    by_cases hd : specDelivered r (fns a.chain) = true
+    · have hk := hreach idx a hget hd
+      have hne : a.result (List.count idx reached) ≠ .panic := hnp' _
+      have hreach' : ∀ j b, table[j]? = some b → specDelivered r (fns b.chain) = true →
+          (idx :: reached).count j = (pre ++ [idx]).count j := by
+        intro j b hb hdb
+        have := hreach j b hb hdb
+        simp [List.count_cons, List.count_append, this]
+      have hih := ih (pre ++ [idx]) (idx :: reached) (fun j hj => hrange j (by simp [hj])) hreach'
+      simp only [hd, if_true, hih, Bool.true_and, hk]
+      by_cases he : a.result (List.count idx pre) = CallResult.err <;> simp [he, hnp' (List.count idx pre)]
+    · have hd' : specDelivered r (fns a.chain) = false := by simpa using hd
+      have hreach' : ∀ j b, table[j]? = some b → specDelivered r (fns b.chain) = true →
+          reached.count j = (pre ++ [idx]).count j := by
+        intro j b hb hdb
+        have := hreach j b hb hdb
+        have hji : j ≠ idx := by
+          intro hc; subst hc; rw [hget] at hb; cases hb; rw [hd'] at hdb; cases hdb
+        simp [List.count_append, this, Ne.symm hji]
+      have hih := ih (pre ++ [idx]) reached (fun j hj => hrange j (by simp [hj])) hreach'
+      simp [hd', hih]
 
-theorem specTrace_eq (table : List AppenderM) (nl : Nat) (attached : List Nat) (lvl : Nat) :
-    specTrace table nl attached lvl =
-      if admits nl lvl then
-        attached.flatMap (specAttachEvents table lvl)
-          ++ (attached.filter (specErrs table lvl)).map Event.handler
-      else [] := rfl
-
-theorem fanout_eq_spec (table : List AppenderM) (nl : Nat) (attached : List Nat) (lvl : Nat)
-    (h : ∀ j ∈ attached, j < table.length) :
-    fanout table nl attached lvl = .ok (specTrace table nl attached lvl) := by
-  simp only [fanout, specTrace_eq, attachLoop_eq table lvl attached h]
+theorem fanoutG_eq_spec (table : List (AppenderG ρ)) (nl : Nat) (attached : List Nat)
+    (lvlOf : ρ → Nat) (r : ρ) (hnp : NoPanic table) (h : ∀ j ∈ attached, j < table.length) :
+    fanoutG table nl attached lvlOf r = .returned (specTraceG table nl attached lvlOf r) := by
+  have := attachLoopG_eq table r hnp attached [] [] h (by intros; rfl)
+  simp only [fanoutG, specTraceG, this, specErrList_eq_errLoop]
   split <;> rfl
 
-/-- every event of an attachment of appender `j` concerns `j` -/
-theorem specAttachEvents_app (table : List AppenderM) (lvl j : Nat) :
-    ∀ e ∈ specAttachEvents table lvl j, e.app = j := by
+
+/-! ### projections onto one appender -/
+
+theorem specAttachEvents_app (table : List (AppenderG ρ)) (r : ρ) (j : Nat) :
+    ∀ e ∈ specAttachEvents table r j, e.app = j := by
   intro e he
   unfold specAttachEvents at he
   split at he
@@ -62,25 +136,25 @@ theorem specAttachEvents_app (table : List AppenderM) (lvl j : Nat) :
     · split at he <;> simp_all [Event.app]
   · simp at he
 
-theorem project_attach_ne (table : List AppenderM) (lvl i j : Nat) (h : j ≠ i) :
-    project i (specAttachEvents table lvl j) = [] := by
+theorem project_attach_ne (table : List (AppenderG ρ)) (r : ρ) (i j : Nat) (h : j ≠ i) :
+    project i (specAttachEvents table r j) = [] := by
   simp only [project, List.filter_eq_nil_iff]
   intro e he
-  simp [specAttachEvents_app table lvl j e he, h]
+  simp [specAttachEvents_app table r j e he, h]
 
-theorem project_attach_self (table : List AppenderM) (lvl i : Nat) :
-    project i (specAttachEvents table lvl i) = specAttachEvents table lvl i := by
+theorem project_attach_self (table : List (AppenderG ρ)) (r : ρ) (i : Nat) :
+    project i (specAttachEvents table r i) = specAttachEvents table r i := by
   simp only [project, List.filter_eq_self]
   intro e he
-  simp [specAttachEvents_app table lvl i e he]
+  simp [specAttachEvents_app table r i e he]
 
 theorem project_append (i : Nat) (xs ys : List Event) :
     project i (xs ++ ys) = project i xs ++ project i ys := by simp [project]
 
 /-- the calls concerning appender `i`: one block per attachment of `i` -/
-theorem project_flatMap (table : List AppenderM) (lvl i : Nat) (attached : List Nat) :
-    project i (attached.flatMap (specAttachEvents table lvl)) =
-      (List.replicate (attached.count i) (specAttachEvents table lvl i)).flatten := by
+theorem project_flatMap (table : List (AppenderG ρ)) (r : ρ) (i : Nat) (attached : List Nat) :
+    project i (attached.flatMap (specAttachEvents table r)) =
+      (List.replicate (attached.count i) (specAttachEvents table r i)).flatten := by
   induction attached with
   | nil => simp [project]
   | cons j rest ih =>
@@ -88,32 +162,95 @@ theorem project_flatMap (table : List AppenderM) (lvl i : Nat) (attached : List 
     by_cases hj : j = i
     · subst hj
       simp [project_attach_self, List.replicate_succ]
-    · simp [project_attach_ne table lvl i j hj, hj]
+    · simp [project_attach_ne table r i j hj, hj]
 
-theorem project_handlers (p : Nat → Bool) (i : Nat) (attached : List Nat) :
-    project i ((attached.filter p).map Event.handler) =
-      List.replicate (if p i then attached.count i else 0) (Event.handler i) := by
-  induction attached with
+theorem project_handlers (i : Nat) (L : List Nat) :
+    project i (L.map Event.handler) = List.replicate (L.count i) (Event.handler i) := by
+  induction L with
   | nil => simp [project]
   | cons j rest ih =>
+    have hh : (Event.handler j).app = j := rfl
+    simp only [project, List.map_cons, List.filter_cons, hh, List.count_cons] at ih ⊢
+    by_cases hj : j = i
+    · subst hj; simp [List.replicate_succ, ih]
+    · simp [hj, ih]
+
+/-- how many of the calls number `c, c+1, …, c+n-1` of appender `i` return an error -/
+def errCount (table : List (AppenderG ρ)) (r : ρ) (i c n : Nat) : Nat :=
+  ((List.range' c n).filter (errAt table r i)).length
+
+theorem errLoop_count (table : List (AppenderG ρ)) (r : ρ) (i : Nat) (pre rest : List Nat) :
+    (errLoop table r pre rest).count i = errCount table r i (pre.count i) (rest.count i) := by
+  induction rest generalizing pre with
+  | nil => simp [errLoop, errCount]
+  | cons j rest ih =>
+    simp only [errLoop, List.count_append, ih (pre ++ [j])]
     by_cases hj : j = i
     · subst hj
-      by_cases hp : p j
-      · simp [hp, project, Event.app, List.replicate_succ] at ih ⊢
-        exact ih
-      · simp [hp] at ih ⊢
-        exact ih
-    · by_cases hp : p j
-      · simp only [List.filter_cons, hp, if_true, List.map_cons, List.count_cons]
-        have : project i (Event.handler j :: List.map Event.handler (List.filter p rest)) =
-            project i (List.map Event.handler (List.filter p rest)) := by
-          simp [project, Event.app, hj]
-        rw [this, ih]
-        simp [hj]
-      · simp only [List.filter_cons, hp, List.count_cons]
-        rw [show (if false = true then j :: List.filter p rest else List.filter p rest) = List.filter p rest from rfl, ih]
-        simp [hj]
+      simp only [List.count_append, List.count_cons_self, List.count_nil, errCount,
+        List.range'_succ, List.filter_cons]
+      by_cases he : errAt table r j (List.count j pre) = true <;> simp [he] <;> omega
+    · have hji : ¬ i = j := fun h => hj h.symm
+      simp only [List.count_append, List.count_cons, hj, hji]
+      split <;> simp [List.count_cons, hj, hji]
 
+theorem project_specTraceG (table : List (AppenderG ρ)) (nl : Nat) (attached : List Nat)
+    (lvlOf : ρ → Nat) (r : ρ) (i : Nat) (hadm : admits nl (lvlOf r) = true) :
+    project i (specTraceG table nl attached lvlOf r) =
+      (List.replicate (attached.count i) (specAttachEvents table r i)).flatten ++
+      List.replicate (errCount table r i 0 (attached.count i)) (Event.handler i) := by
+  simp only [specTraceG, hadm, if_true, project_append, project_flatMap, project_handlers,
+    specErrList_eq_errLoop, errLoop_count, List.count_nil]
+
+theorem errAt_congr (t t' : List (AppenderG ρ)) (r : ρ) (i : Nat) (h : t[i]? = t'[i]?) :
+    errAt t r i = errAt t' r i := by
+  funext k
+  simp [errAt, h]
+
+theorem specAttachEvents_congr (t t' : List (AppenderG ρ)) (r : ρ) (i : Nat) (h : t[i]? = t'[i]?) :
+    specAttachEvents t r i = specAttachEvents t' r i := by
+  simp [specAttachEvents, h]
+
+theorem project_specTraceG_congr (t t' : List (AppenderG ρ)) (nl : Nat) (attached : List Nat)
+    (lvlOf : ρ → Nat) (r : ρ) (i : Nat) (h : t[i]? = t'[i]?) :
+    project i (specTraceG t nl attached lvlOf r) = project i (specTraceG t' nl attached lvlOf r) := by
+  by_cases hadm : admits nl (lvlOf r) = true
+  · rw [project_specTraceG t _ _ _ _ _ hadm, project_specTraceG t' _ _ _ _ _ hadm,
+      specAttachEvents_congr t t' r i h]
+    simp only [errCount, errAt_congr t t' r i h]
+  · simp [specTraceG, hadm]
+
+/-! ### chains: prefixes that cannot accept -/
+
+theorem specDelivered_prefix_no_accept (r : ρ) (pre rest : List (ρ → Response))
+    (h : ∀ f ∈ pre, f r ≠ .accept) :
+    specDelivered r (pre ++ rest) = (pre.all (fun f => f r = .neutral) && specDelivered r rest) := by
+  induction pre with
+  | nil => simp
+  | cons f fs ih =>
+    have hf := h f (by simp)
+    have ih' := ih (fun g hg => h g (by simp [hg]))
+    simp only [specDelivered, firstDecisive, List.cons_append, List.map_cons, List.find?_cons,
+      List.all_cons] at ih' ⊢
+    cases hr : f r with
+    | accept => exact absurd hr hf
+    | neutral => simpa using ih'
+    | reject => simp
+
+theorem specDelivered_accept_after_neutrals (r : ρ) (pre later : List (ρ → Response)) (g : ρ → Response)
+    (h : ∀ f ∈ pre, f r = .neutral) (hg : g r = .accept) :
+    specDelivered r (pre ++ g :: later) = true ∧ specConsulted r (pre ++ g :: later) = pre.length + 1 := by
+  induction pre with
+  | nil => simp [specDelivered, firstDecisive, specConsulted, hg, List.findIdx?_cons]
+  | cons f fs ih =>
+    have hf := h f (by simp)
+    obtain ⟨i1, i2⟩ := ih (fun x hx => h x (by simp [hx]))
+    simp only [specDelivered, firstDecisive, specConsulted, List.cons_append, List.map_cons,
+      List.find?_cons, List.findIdx?_cons, hf, List.length_cons] at i1 i2 ⊢
+    refine ⟨by simpa using i1, ?_⟩
+    revert i2
+    generalize List.findIdx? _ _ = o
+    cases o <;> simp <;> omega
 
 /-! ### construction paths -/
 
@@ -122,110 +259,76 @@ theorem foldl_push {α} (acc d : List α) : d.foldl (fun acc f => acc ++ [f]) ac
   | nil => simp
   | cons x xs ih => simp [ih]
 
-theorem builderChain_eq (declared : List Filter) : builderChain declared = declared := by
-  unfold builderChain
-  rw [foldl_push]; rfl
+theorem builderVec_fold (calls : List (BuilderCall ρ)) (acc : List (ρ → Response)) :
+    calls.foldl BuilderCall.step acc = acc ++ calls.flatMap BuilderCall.declared := by
+  induction calls generalizing acc with
+  | nil => simp
+  | cons c cs ih =>
+    cases c with
+    | filter f => simp [ih, BuilderCall.step, BuilderCall.declared]
+    | filters fs =>
+      simp only [List.foldl_cons, BuilderCall.step, ih, List.flatMap_cons, BuilderCall.declared]
+      rw [foldl_push]; simp
 
-/-- the entries that deserialize, in document order -/
-def validEntries : List FilterEntry → List Filter
+theorem builderVec_eq (calls : List (BuilderCall ρ)) :
+    builderVec calls = calls.flatMap BuilderCall.declared := by
+  simp [builderVec, builderVec_fold]
+
+/-- the labelled entries that deserialize, in document order -/
+def validEntries : List (Nat × FilterEntry ρ) → List (LFilter ρ)
   | [] => []
-  | .ok f :: rest => f :: validEntries rest
-  | .bad :: rest => validEntries rest
+  | (l, .ok f) :: rest => (l, f) :: validEntries rest
+  | (_, .bad) :: rest => validEntries rest
 
-theorem configChain_fold (doc : List FilterEntry) (acc : List Filter × Nat) :
-    doc.foldl configStep acc = (acc.1 ++ validEntries doc, acc.2 + doc.count .bad) := by
+def badCount : List (Nat × FilterEntry ρ) → Nat
+  | [] => 0
+  | (_, .ok _) :: rest => badCount rest
+  | (_, .bad) :: rest => badCount rest + 1
+
+theorem configChain_fold (doc : List (Nat × FilterEntry ρ)) (acc : List (LFilter ρ) × Nat) :
+    doc.foldl configStep acc = (acc.1 ++ validEntries doc, acc.2 + badCount doc) := by
   induction doc generalizing acc with
-  | nil => simp [validEntries]
+  | nil => simp [validEntries, badCount]
   | cons e rest ih =>
+    obtain ⟨l, e⟩ := e
     cases e with
-    | ok f => simp [ih, validEntries, configStep]
-    | bad => simp [ih, validEntries, configStep]; omega
+    | ok f => simp [ih, validEntries, badCount, configStep]
+    | bad => simp [ih, validEntries, badCount, configStep]; omega
 
-theorem configChain_eq (doc : List FilterEntry) :
-    configChain doc = (validEntries doc, doc.count .bad) := by
+theorem configChain_eq (doc : List (FilterEntry ρ)) :
+    configChain doc =
+      (validEntries (doc.zipIdx.map fun p => (p.2, p.1)), badCount (doc.zipIdx.map fun p => (p.2, p.1))) := by
   unfold configChain
   rw [configChain_fold]; simp
 
-theorem validEntries_map_ok (declared : List Filter) :
-    validEntries (declared.map FilterEntry.ok) = declared := by
-  induction declared with
-  | nil => rfl
-  | cons f rest ih => simp [validEntries, ih]
+theorem validEntries_all_ok (fs : List (ρ → Response)) (n : Nat) :
+    validEntries (((fs.map FilterEntry.ok).zipIdx n).map fun p => (p.2, p.1)) =
+      (fs.zipIdx n).map (fun p => (p.2, p.1)) ∧
+    badCount (((fs.map FilterEntry.ok).zipIdx n).map fun p => (p.2, p.1)) = 0 := by
+  induction fs generalizing n with
+  | nil => simp [validEntries, badCount]
+  | cons f rest ih =>
+    obtain ⟨i1, i2⟩ := ih (n + 1)
+    simp [validEntries, badCount, i1, i2]
 
-theorem count_bad_map_ok (declared : List Filter) :
-    (declared.map FilterEntry.ok).count .bad = 0 := by
-  induction declared with
-  | nil => rfl
-  | cons f rest ih => simp [ih]
-
-/-! ### prefixes that cannot accept -/
-
-theorem runChain_prefix_no_accept (lvl : Nat) (pre rest : List Filter)
-    (h : ∀ f ∈ pre, f.respond lvl ≠ .accept) :
-    (runChain lvl (pre ++ rest)).2 =
-      (pre.all (fun f => f.respond lvl = .neutral) && (runChain lvl rest).2) := by
-  induction pre with
-  | nil => simp
-  | cons f fs ih =>
-    have hf := h f (by simp)
-    have ih' := ih (fun g hg => h g (by simp [hg]))
-    simp only [List.cons_append, runChain, List.all_cons]
-    cases hr : f.respond lvl with
-    | accept => exact absurd hr hf
-    | neutral => simp [ih']
-    | reject => simp
-
-theorem threshold_respond_ne_accept (t lvl : Nat) : (Filter.threshold t).respond lvl ≠ .accept := by
-  simp only [Filter.respond, thresholdFilter]
-  split <;> simp
-
-theorem threshold_neutral_iff (t lvl : Nat) : (Filter.threshold t).respond lvl = .neutral ↔ lvl ≤ t := by
-  simp only [Filter.respond, thresholdFilter]
-  by_cases h : lvl > t
-  · simp [h]
-  · simp [h]; omega
-
-/-- a filter whose answer depends on the level alone and is never Accept: a threshold, or a scripted
-Neutral -/
-def LevelGate : Filter → Prop
-  | .threshold _ => True
-  | .fixed r => r = .neutral
-
-/-- the thresholds among the filters of a list -/
-def thresholdsOf : List Filter → List Nat
-  | [] => []
-  | .threshold t :: rest => t :: thresholdsOf rest
-  | .fixed _ :: rest => thresholdsOf rest
-
-theorem gates_all_neutral (lvl : Nat) (pre : List Filter) (h : ∀ f ∈ pre, LevelGate f) :
-    pre.all (fun f => f.respond lvl = .neutral) = (thresholdsOf pre).all (fun t => decide (lvl ≤ t)) := by
-  induction pre with
-  | nil => rfl
-  | cons f fs ih =>
-    have ih' := ih (fun g hg => h g (by simp [hg]))
-    have hf := h f (by simp)
-    cases f with
-    | threshold t =>
-      simp only [List.all_cons, thresholdsOf, ih']
-      congr 1
-      rw [Bool.eq_iff_iff]
-      simp [threshold_neutral_iff]
-    | fixed r =>
-      simp only [LevelGate] at hf
-      subst hf
-      simp only [List.all_cons, thresholdsOf, ← ih']
-      simp [Filter.respond]
-
-theorem gates_no_accept (lvl : Nat) (pre : List Filter) (h : ∀ f ∈ pre, LevelGate f) :
-    ∀ f ∈ pre, f.respond lvl ≠ .accept := by
-  intro f hf
-  have := h f hf
-  cases f with
-  | threshold t => exact threshold_respond_ne_accept t lvl
-  | fixed r => simp only [LevelGate] at this; subst this; simp [Filter.respond]
-
-theorem all_le_iff_le_min (lvl : Nat) (ts : List Nat) (m : Nat) (h : ts.min? = some m) :
-    (∀ t ∈ ts, lvl ≤ t) ↔ lvl ≤ m := by
-  exact (List.le_min?_iff h).symm
+/-- the labels of the entries that deserialize are increasing: document order is kept -/
+theorem validEntries_labels_sorted (doc : List (FilterEntry ρ)) (n : Nat) :
+    ((validEntries ((doc.zipIdx n).map fun p => (p.2, p.1))).map (·.1)).Pairwise (· < ·) ∧
+    ∀ l ∈ (validEntries ((doc.zipIdx n).map fun p => (p.2, p.1))).map (·.1), n ≤ l := by
+  induction doc generalizing n with
+  | nil => simp [validEntries]
+  | cons e rest ih =>
+    obtain ⟨i1, i2⟩ := ih (n + 1)
+    cases e with
+    | ok f =>
+      simp only [List.zipIdx_cons, List.map_cons, validEntries, List.pairwise_cons, List.mem_cons]
+      refine ⟨⟨fun l hl => ?_, i1⟩, fun l hl => ?_⟩
+      · have := i2 l hl; omega
+      · rcases hl with rfl | hl
+        · exact Nat.le_refl _
+        · have := i2 l hl; omega
+    | bad =>
+      simp only [List.zipIdx_cons, List.map_cons, validEntries]
+      exact ⟨i1, fun l hl => by have := i2 l hl; omega⟩
 
 end Log4rs.Routing
